@@ -16,7 +16,7 @@ FUNCTIONS = ["wannierberri.system.system_kp.SystemKP.__init__ (k_to_1BZ, k_ham_f
 BOUNDS = dict(quick=dict(num_wann="1..2", Hamiltonian="polynomial of total degree <= 3 in k (all monomials) with symbolic Hermitian matrix coefficients in [-1,1]",
                          lattices="kmax=2 (cubic), tetragonal, hexagonal and one triclinic recip_lattice (triclinic: derivatives up to second order)", k="symbolic reduced k in [-0.49,0.49]^3; kp-face cases: one component anywhere in [-1/2,1/2) (first derivative)", conventions="cartesian and reduced k-vector",
                          finite_diff_dk="1e-4 (default), 1e-3", tolerance="1e-8 absolute (coefficients and k bounded as stated)"),
-              thorough=dict(num_wann="1..3", Hamiltonian="as quick", lattices="as quick, triclinic up to third order", k="as quick, 2 k-points through Data_K_k", conventions="both",
+              thorough=dict(num_wann="1..3", Hamiltonian="as quick", lattices="as quick, triclinic up to third order", k="as quick (|k_i| <= 0.45 for dk=1e-2), 2 k-points through Data_K_k", conventions="both",
                             finite_diff_dk="1e-4, 1e-3, 1e-2", tolerance="1e-8"))
 EXPLANATION = ("SystemKP is given only a Hamiltonian that is a polynomial in k with symbolic Hermitian coefficient matrices; the real find_shells / Derivative3D chain produces derHam, der2Ham, "
                "der3Ham, which are evaluated at a symbolic k (the box folding `% 1` is resolved by the path explorer).  z3 decides (tolerance shape, double stencil weights) that they equal the "
@@ -44,7 +44,8 @@ def monomials(deg):
 def arrays_for(spec):
     nb = spec["nb"]
     A = {"C" + "".join(map(str, m)): herm("C" + "".join(map(str, m)), nb, (), -1, 1) for m in monomials(spec["deg"])}
-    A["k"] = symvec("k", (spec["nk"], 3), lo=-KB, hi=KB)
+    kb = KB if spec["dk"] <= 1e-3 else 0.45          # interior cases: stay clear of the faces by more than the reach 3*dk*max|b| of the nested stencils
+    A["k"] = symvec("k", (spec["nk"], 3), lo=-kb, hi=kb)
     if spec.get("face"):            # first component anywhere in the box [-1/2, 1/2), including the layers next to its faces
         A["k"][0, 0] = SymC.var("kface", -0.5, 0.5 - 2.0 ** -30)
     return A
@@ -157,7 +158,7 @@ def cases(tier, seed):
             for cart in (True, False):
                 for deg in (2, 3):
                     for nb in (1, 2, 3):
-                        if (nb == 3 and (deg == 3 or lattice != "cubic")) or (nb == 2 and deg == 3 and lattice in ("hex", "tric") and not cart):
+                        if (nb == 3 and (deg == 3 or lattice != "cubic")) or (nb == 2 and deg == 3 and lattice == "hex" and not cart) or (nb == 2 and lattice == "tric" and (deg == 3 or not cart)):
                             continue
                         combos.append((lattice, cart, deg, nb, 1e-4))
         combos += [("cubic", True, 3, 1, 1e-3), ("hex", False, 2, 1, 1e-3), ("cubic", True, 3, 1, 1e-2), ("tric", True, 3, 1, 1e-3)]
@@ -166,7 +167,7 @@ def cases(tier, seed):
         spec = dict(lattice=lattice, cartesian=cart, deg=deg, nb=1, dk=1e-4, nk=1, dkorders=1, orders=1, face=True)
         out.append(Case(f"kp-face {lattice} {'cartesian' if cart else 'reduced'} deg={deg} nb=1: k_0 anywhere in [-1/2,1/2), first derivative", case_run, dict(spec=spec), timeout=1500))
     for lattice, cart, deg, nb, dk in combos:
-        spec = dict(lattice=lattice, cartesian=cart, deg=deg, nb=nb, dk=dk, nk=1 if (q or nb > 1) else 2, dkorders=2 if nb > 1 else 3, orders=2 if (q and lattice == "tric") else 3)
+        spec = dict(lattice=lattice, cartesian=cart, deg=deg, nb=nb, dk=dk, nk=1 if (q or nb > 1) else 2, dkorders=2 if nb > 1 else 3, orders=2 if (lattice == "tric" and (q or nb > 1)) else 3)
         out.append(Case(f"kp {lattice} {'cartesian' if cart else 'reduced'} deg={deg} nb={nb} dk={dk}", case_run, dict(spec=spec), timeout=3000))
     return out
 
